@@ -153,7 +153,8 @@ def r1_entry_pairing(ctx, F):
             continue
         fb = forget_blocks(b, v, vf.field(entry, "inode"))
         region = b.reach_set(start, avoid=fb)
-        late = [x for x in live_calls(b) if x.bb in region and x.name == "from_residual"]
+        # (a `?` whose result is stored in a local - the body of a spliced helper - is not an exit of this function)
+        late = [x for x in live_calls(b) if x.bb in region and x.name == "from_residual" and x.dest == [0]]
         # explicit `return Err(..)` without the give-back counts like a `?`
         for u in sorted(region):
             for s_ in b.stmts(u):
